@@ -84,6 +84,7 @@ type nestEnv struct {
 	// store-set oracles (nestedstores.go)
 	sw                                       *storeWatch
 	ancestorWriteReported, sameBytesReported bool
+	abandoned                                bool // nestfail.go: the history cannot be continued (counted there)
 }
 
 // hi is the hash-input provider of the program.
